@@ -239,8 +239,10 @@ func (r *runner) parent() {
 	var wg sync.WaitGroup
 	wg.Add(1)
 	t0 := time.Now()
-	go func() { defer wg.Done(); r.runCorrChild(dir, nil) }()
+	var tCorr time.Duration
+	go func() { defer wg.Done(); r.runCorrChild(dir, nil); tCorr = time.Since(t0) }()
 	r.runScenarioChildren(dir, scs, c.N(8, 12))
+	tScen := time.Since(t0)
 	wg.Wait()
-	c.Note(fmt.Sprintf("children finished after %v", time.Since(t0).Round(time.Second)))
+	c.Note(fmt.Sprintf("children finished after %v (correspondence %v, scenarios %v)", time.Since(t0).Round(time.Second), tCorr.Round(time.Second), tScen.Round(time.Second)))
 }
